@@ -294,9 +294,9 @@ def r5_r6(ctx, prog):
 
 def run(ctx):
     prog = extract(SCOPE)
-    r1_heap_protocol(ctx, prog)
-    r2(ctx, prog)
-    r3(ctx, prog)
-    r4(ctx, prog)
-    r5_r6(ctx, prog)
+    ctx.guard(r1_heap_protocol, ctx, prog)
+    ctx.guard(r2, ctx, prog)
+    ctx.guard(r3, ctx, prog)
+    ctx.guard(r4, ctx, prog)
+    ctx.guard(r5_r6, ctx, prog)
     return prog
